@@ -109,6 +109,8 @@ func VerifBinaryRead() {
 	}
 	pos := 0
 	failed := false
+	var keptBytes [][]byte
+	var keptWant [][]byte
 	vAssert(r.Len() == int64(n) && r.Pos() == 0 && r.Err() == nil, "initial-state")
 	for k := 0; k < vParam("K", 2); k++ {
 		kind := vRange("kind", 0, 5)
@@ -134,6 +136,8 @@ func VerifBinaryRead() {
 			// fully inside the data
 			if kind == 5 {
 				vAssert(string(gotBytes) == string(orig[pos:pos+size]), "readbytes-value")
+				keptBytes = append(keptBytes, gotBytes)
+				keptWant = append(keptWant, orig[pos:pos+size])
 			} else {
 				vAssert(got == vnRefUint(orig[pos:pos+size], le), "typed-read-value")
 			}
@@ -152,6 +156,10 @@ func VerifBinaryRead() {
 			}
 			vAssert(r.Pos() <= int64(n), "pos-past-end")
 			vReach("read-short")
+		}
+		// byte strings handed out earlier keep their value
+		for i := range keptBytes {
+			vAssert(string(keptBytes[i]) == string(keptWant[i]), "earlier-byte-string-overwritten")
 		}
 	}
 }
@@ -438,6 +446,9 @@ func VerifBinaryHistory() {
 			vAssert(r.Pos() == int64(pos), "history-read-pos")
 		}
 		vAssert(r.Len() == int64(n)-r.Pos(), "history-len")
+		if failed {
+			vAssert(r.Err() == io.EOF, "history-eof-not-sticky")
+		}
 	}
 	vReach("history")
 }
